@@ -274,10 +274,14 @@ def _expand(call, fn, is_method, counter, result_name):
     return pre + body
 
 
-def inline_helpers(tree):
-    """inline private helpers into their callers, in place; returns the number of call sites expanded"""
+def inline_helpers(tree, extern=None):
+    """inline private helpers into their callers, in place; returns the number of call sites expanded.
+    extern: {local name: FunctionDef} private helpers imported from another lasio module"""
     helpers = {}
     methods = {}
+    for nm, node in (extern or {}).items():
+        if _inlinable(node):
+            helpers[nm] = node
     for node in tree.body:
         if isinstance(node, ast.FunctionDef) and _inlinable(node):
             helpers[node.name] = node
@@ -431,7 +435,7 @@ def _expr_body(fn):
     return None
 
 
-def inline_expression_helpers(tree):
+def inline_expression_helpers(tree, extern=None):
     """substitute calls of private one-expression helpers (`def _f(a, b): return <expr>`) wherever they occur outside
     lambdas (raise statements, conditions, arguments, comprehensions): `raise self._err(k)` -> `raise KeyError(... k ...)`"""
     helpers, methods = {}, {}
@@ -456,6 +460,9 @@ def inline_expression_helpers(tree):
                 return False
         return True
 
+    for nm, node in (extern or {}).items():
+        if ok(node):
+            helpers[nm] = node
     for node in tree.body:
         if isinstance(node, ast.FunctionDef) and ok(node):
             helpers[node.name] = node
@@ -1281,15 +1288,54 @@ def split_and_ifs(tree):
     return n[0]
 
 
-def normalize(tree):
+def extern_helpers(tree, modname, raw_trees):
+    """private module-level functions of other lasio modules that this module imports:
+    `from ._util import _pad` -> {"_pad": def};  `from . import _util` / `import lasio._util as u` + `u._pad(...)` calls are
+    rewritten to plain `_pad__u(...)` names bound to the definition"""
+    out = {}
+    aliases = {}
+    for node in tree.body:
+        if isinstance(node, ast.ImportFrom) and node.level >= 1:
+            if node.module:          # from .mod import name
+                src = raw_trees.get(node.module.split(".")[-1])
+                if src is None:
+                    continue
+                for a in node.names:
+                    if a.name.startswith("_") and not a.name.startswith("__"):
+                        for d in src.body:
+                            if isinstance(d, ast.FunctionDef) and d.name == a.name:
+                                out[a.asname or a.name] = d
+            else:                    # from . import mod
+                for a in node.names:
+                    if a.name in raw_trees:
+                        aliases[a.asname or a.name] = a.name
+    if aliases:
+        class R(ast.NodeTransformer):
+            def visit_Call(self, node):
+                self.generic_visit(node)
+                f = node.func
+                if isinstance(f, ast.Attribute) and isinstance(f.value, ast.Name) and f.value.id in aliases \
+                        and f.attr.startswith("_") and not f.attr.startswith("__"):
+                    src = raw_trees[aliases[f.value.id]]
+                    for d in src.body:
+                        if isinstance(d, ast.FunctionDef) and d.name == f.attr:
+                            local = "%s__%s" % (f.attr, f.value.id)
+                            out[local] = d
+                            node.func = ast.copy_location(ast.Name(id=local, ctx=ast.Load()), f)
+                return node
+        R().visit(tree)
+    return out
+
+
+def normalize(tree, extern=None):
     stats = {"match": desugar_match(tree), "suppress": lower_suppress(tree), "walrus": lower_walrus_if(tree) + lower_walrus_while(tree)}
     stats.update({"constants": propagate_constants(tree), "inlined": 0, "resugared": resugar_loops(tree)})
     for _ in range(MAX_ROUNDS):
-        n = inline_helpers(tree)
+        n = inline_helpers(tree, extern)
         stats["inlined"] += n
         if not n:
             break
-    stats["expr_inlined"] = inline_expression_helpers(tree)
+    stats["expr_inlined"] = inline_expression_helpers(tree, extern)
     stats["aliases"] = propagate_aliases(tree)
     stats["unrolled"] = unroll_constant_loops(tree)
     stats["getsetattr"] = lower_getsetattr(tree)
